@@ -8,6 +8,7 @@ executed) NetQASM subroutine.
 
 from __future__ import annotations
 
+import ctypes
 from typing import Dict, List, Optional, Tuple, Union
 
 from netqasm.lang import encoding
@@ -118,6 +119,9 @@ class Subroutine:
     @property
     def cstructs(self):
         assert self.app_id is not None
+        encoding.check_int_range(
+            self.app_id, 8 * ctypes.sizeof(encoding.APP_ID), False, "app ID"
+        )
 
         metadata = encoding.Metadata(
             netqasm_version=self.netqasm_version,
